@@ -33,7 +33,14 @@ class WallCap(HarnessError):
     pass
 
 
+_WALL = {"fired": False}
+
+
 def _alarm(signum, frame):
+    # code under test may swallow the exception (except BaseException in the workers): remember it
+    # and fire again so that the run cannot continue for long
+    _WALL["fired"] = True
+    signal.setitimer(signal.ITIMER_REAL, 1.0)
     raise WallCap("per-run wall cap hit")
 
 
@@ -41,9 +48,12 @@ def run_guarded(mod, case, choices):
     """Run one case under a wall-clock watchdog.  Returns (Result|None, error-string|None)."""
     cap = getattr(mod, "CASE_WALL_S", 20.0)
     old = signal.signal(signal.SIGALRM, _alarm)
+    _WALL["fired"] = False
     signal.setitimer(signal.ITIMER_REAL, cap)
     try:
         res = mod.run(case, choices)
+        if _WALL["fired"]:
+            return None, "WallCap: per-run wall cap (%.0fs) hit" % cap
         return res, None
     except HarnessError as e:
         return None, "%s: %s" % (type(e).__name__, e)
@@ -407,8 +417,9 @@ def main_check(mod, tier, seed, runs=None, budget=None, jobs=None):
         "wall_s": round(wall, 2),
         "violations": nviol,
     }
-    os.makedirs(os.path.join(ROOT, "evidence"), exist_ok=True)
-    with open(os.path.join(ROOT, "evidence", mod.ID + ".json"), "w") as f:
+    evdir = os.environ.get("GV_EVIDENCE_DIR") or os.path.join(ROOT, "evidence")
+    os.makedirs(evdir, exist_ok=True)
+    with open(os.path.join(evdir, mod.ID + ".json"), "w") as f:
         json.dump(ev, f, indent=1, sort_keys=True, default=repr)
     print("%s tier=%s seed=%d runs=%d distinct=%d states=%d sim_s=%.0f wall=%.1fs violations=%d known=%d errors=%d"
           % (mod.ID, tier, seed, agg["n"], len(agg["shapes"]), len(agg["states"]), agg["sim_s"],
